@@ -217,9 +217,33 @@ def main(tier):
                 run.ob("steps", "%s/%s from (%s, %s%s): equals the reference transducer" % (r["step"], prof, r.get("line"), r.get("stack"), (", " + r["fragment"]) if r.get("fragment") else ""), True,
                        nontrivial=("step", r["step"], r.get("line"), r.get("stack"), r.get("fragment"), r.get("arg"), r.get("emitted")), sample=(r.get("fragment") == "line" and "mapseg" in (r.get("emitted") or "")))
         run.floor("indent-writer step cases (%s)" % prof, okc, 30)
-    # (5) format modes, per body: every payload write picks its format by f.alternate(); the template on each arm is the same at every site; the trait matches the impl
+    # (5) format modes.  With the driver tables decided the clause is read off them (each fmt body was run with f.alternate() false and true; the records carry the
+    # trait and the template of every payload write): one template per mode, the modes differ, the plain mode is the bare placeholder, Display and Debug use the
+    # same pair.  This holds wherever the writes sit (fmt itself, a shared generic helper, a closure).  The structural form below is the fall-back.
     arm_tpl = {}
-    for key in (FMT_D, FMT_G):
+    if driver_decided:
+        for (prof, entry), recs in sorted(sdata.items()):
+            per = {}
+            for r in recs:
+                if r.get("step") == "fmt" and r.get("exit") == "return":
+                    per.setdefault((r["trait"], r["alternate"]), set()).update(r.get("templates") or [None])
+            pairs = {}
+            for trait in sorted({k[0] for k in per}):
+                plain, alt = per.get((trait, False), set()), per.get((trait, True), set())
+                ok = len(plain) == 1 and len(alt) == 1 and plain != alt and None not in plain | alt
+                run.ob("modes", "%s::fmt/%s: one format template per mode, the same for every payload, and the two modes differ" % (trait, prof), ok,
+                       key="modes|%s::fmt: format templates per mode are %s / %s" % (trait, sorted(map(str, plain)), sorted(map(str, alt))), nontrivial=(trait, "templates"), sample=True)
+                if ok:
+                    p0 = next(iter(plain))
+                    run.ob("modes", "%s::fmt/%s: the non-alternate mode uses the bare placeholder `{}`" % (trait, prof), "mem{c000}" in p0,
+                           key="modes|%s::fmt: non-alternate template is not the bare placeholder" % trait, detail=p0)
+                    pairs[trait] = (p0, next(iter(alt)))
+            run.ob("modes", "both fmt impls were run in both modes (%s)" % prof, set(per) >= {(t_, a_) for t_ in ("Display", "Debug") for a_ in (False, True)},
+                   key="modes|fmt cases missing from the driver tables", detail=sorted(map(str, per)))
+            if len(pairs) == 2:
+                run.ob("modes", "Display and Debug use the same pair of templates (they differ only in the trait) (%s)" % prof, pairs["Display"] == pairs["Debug"],
+                       key="modes|Display and Debug use different format templates", detail=pairs, nontrivial="modes-x")
+    for key in (() if driver_decided else (FMT_D, FMT_G)):
         f = prog.fns.get(key)
         if f is None:
             continue
